@@ -67,6 +67,27 @@ register(
 )
 
 
+register(
+    "C06",
+    [vh_stage("c06", 4, 16)],
+    "A: every binary tree with <=4 (quick) / <=5 (thorough) leaves over {q,a,i,c,f,r,l,x,=,+,-,11,nil} x standard environments; B: every expression of the size-bounded grammar "
+    "(paths, quoted data, f r l x + - a c = i) up to size 4/5; C: random trees over the full operator set (no softfork) with hostile shapes, path-atom families, both integer modes; "
+    "each program is stepped in several atom spellings and compared with clvmr on the conversion of the same rich value. Non-trivial/distinct = distinct (program, env) on which both evaluators returned the same value",
+    assumptions=COMMON_ASSUME + ["heads are spelled numerically: the stepping evaluator reads Atom/QuotedString heads as operator names by design"],
+    min_nontrivial=1000,
+)
+
+register(
+    "C04",
+    [vh_stage("c04", 4, 16)],
+    "A: every binary tree with <=4/5 leaves over the reduced alphabet; B: every grammar expression up to size 4/5, each in 5 environments; C: f/r chains of length 0..80 over path atoms of 1..9 bytes "
+    "(all-ones, top-bit-set, zero-padded, 2^k neighbours) bare and re-rooted through (a (q . X) ENV), with an environment synthesised for the composed position; D: random trees over the full operator set. "
+    "Premise: clvmr(R,E) returns v; then optimize_sexp(R) and run_optimizer(R) must succeed and clvmr(R',E)=v. Non-trivial/distinct = distinct R that returned a value and that the optimiser actually rewrote",
+    assumptions=COMMON_ASSUME,
+    min_nontrivial=500,
+)
+
+
 def evidence(pid, plan, merged, tier, seed, wall, nviol, known_hits):
     c = merged["counters"]
     cov = {
